@@ -128,4 +128,12 @@ def stdRule (fx : RuleFix) (maps : List (List (Nat × Nat))) (m : Mol) : Option 
   | none => none
   | some st => if st.hs.isEmpty then some st.mol else fixLoop st.hs st.mol
 
+/-- the rule part of one `standardize()` call: the rules whose matcher yielded something, in the order they ran (double rules,
+    second shot, single rules, metal-organic rules), each with its yielded mappings -/
+def stdRules : List (RuleFix × List (List (Nat × Nat))) → Mol → Option Mol
+  | [], m => some m
+  | (fx, maps) :: tl, m => match stdRule fx maps m with
+    | none => none
+    | some m' => stdRules tl m'
+
 end ChythonModel.Model.C04Standardize
